@@ -196,7 +196,7 @@ type orphanService struct{ protoreflect.ServiceDescriptor }
 
 func (o orphanService) ParentFile() protoreflect.FileDescriptor { return nil }
 
-var c20Variants = []string{"protodesc-dynamic-options", "resolver-knows-nothing", "resolver-knows-some", "no-parent-file"}
+var c20Variants = []string{"protodesc-dynamic-options", "resolver-knows-nothing", "resolver-knows-some", "no-parent-file", "no-json-names"}
 
 var (
 	c20TcMu sync.Mutex
@@ -228,6 +228,16 @@ func c20Transcoder(variant string, cfg *SvcConfig) (*vanguard.Transcoder, error)
 			opts = append(opts, vanguard.WithTypeResolver(someResolver{inner: ps.types}))
 		case "no-parent-file":
 			lib, content = orphanService{lib}, orphanService{content}
+		case "no-json-names":
+			// the same files as written by a tool that does not fill in json_name (hand-built descriptors, some
+			// reflection servers): JSONName() is then derived and has the identical value
+			var err error
+			if lib, err = withoutJSONNames("vanguard/test/v1/library.proto", "LibraryService"); err != nil {
+				return nil, err
+			}
+			if content, err = withoutJSONNames("vanguard/test/v1/content.proto", "ContentService"); err != nil {
+				return nil, err
+			}
 		}
 		svcs = []*vanguard.Service{vanguard.NewServiceWithSchema(lib, dispatcher, opts...), vanguard.NewServiceWithSchema(content, dispatcher, opts...)}
 	}
@@ -288,6 +298,29 @@ func revisedContent(path string) (protoreflect.ServiceDescriptor, protoreflect.M
 		return nil, nil, err
 	}
 	return fd.Services().ByName("ContentService"), dynamicpb.NewMessageType(fd.Messages().ByName("Sticker")), nil
+}
+
+func withoutJSONNames(path, svc string) (protoreflect.ServiceDescriptor, error) {
+	gfd, err := protoregistry.GlobalFiles.FindFileByPath(path)
+	if err != nil {
+		return nil, err
+	}
+	fdp := protodesc.ToFileDescriptorProto(gfd)
+	var strip func(ms []*descriptorpb.DescriptorProto)
+	strip = func(ms []*descriptorpb.DescriptorProto) {
+		for _, m := range ms {
+			for _, f := range m.Field {
+				f.JsonName = nil
+			}
+			strip(m.NestedType)
+		}
+	}
+	strip(fdp.MessageType)
+	fd, err := protodesc.NewFile(fdp, protoregistry.GlobalFiles)
+	if err != nil {
+		return nil, err
+	}
+	return fd.Services().ByName(protoreflect.Name(svc)), nil
 }
 
 var (
